@@ -1,8 +1,10 @@
 package c10
 
 import (
+	"bytes"
 	"errors"
 	"fmt"
+	"strings"
 	"time"
 
 	"seehuhn.de/go/sfnt"
@@ -50,6 +52,13 @@ func runImpl(sel string, d *Desc, glyphs []int) (res implResult, err error) {
 	f, err := Build(d)
 	if err != nil {
 		return res, err
+	}
+	if d.Reread {
+		// subset what the library's reader makes of the font
+		f, err = writeAndRead(f)
+		if err != nil {
+			return res, fmt.Errorf("reread case: %v", err)
+		}
 	}
 	res.orig = f
 	// the case line must describe the font exactly: re-project and compare
@@ -119,6 +128,56 @@ func runImpl(sel string, d *Desc, glyphs []int) (res implResult, err error) {
 	return res, nil
 }
 
+// writeAndRead returns the font as sfnt.Read returns it after sfnt.Write.
+func writeAndRead(f *sfnt.Font) (back *sfnt.Font, err error) {
+	defer func() {
+		if e := recover(); e != nil {
+			back, err = nil, fmt.Errorf("panic: %v", e)
+		}
+	}()
+	var buf bytes.Buffer
+	if _, err := f.Write(&buf); err != nil {
+		return nil, err
+	}
+	return sfnt.Read(bytes.NewReader(buf.Bytes()))
+}
+
+// ViaReader returns the descriptor of the font the reader produces from the
+// written font described by d (ok = false when the font cannot be written or
+// read back, or when the result is not stable under another round trip).
+func ViaReader(d *Desc) (*Desc, bool) {
+	f, err := Build(d)
+	if err != nil {
+		return nil, false
+	}
+	back, err := writeAndRead(f)
+	if err != nil {
+		return nil, false
+	}
+	var e *Desc
+	func() {
+		defer func() { recover() }()
+		e = Project(back)
+	}()
+	if e == nil || len(e.Glyphs) != len(d.Glyphs) {
+		return nil, false
+	}
+	e.Reread = true
+	// stable: building e and reading it back gives e again
+	f2, err := Build(e)
+	if err != nil {
+		return nil, false
+	}
+	back2, err := writeAndRead(f2)
+	if err != nil {
+		return nil, false
+	}
+	if CaseLine("font", Project(back2), nil, nil) != CaseLine("font", normalise(e), nil, nil) {
+		return nil, false
+	}
+	return e, true
+}
+
 // normalise gives the descriptor the shape Project produces (nil vs empty
 // slices do not matter for the case line; flags implied by the kind).
 func normalise(d *Desc) *Desc {
@@ -126,11 +185,14 @@ func normalise(d *Desc) *Desc {
 	if c.Kind != "glyf" {
 		c.NoNames = false
 	}
+	c.Reread = false // Project does not know where the font came from
 	return &c
 }
 
 // RunCase re-executes one case line.
 func RunCase(line string) (impl string, fail string, sig string, err error) {
+	// "!" marks oracle-only cases (not given to the model)
+	line = strings.TrimPrefix(strings.TrimSpace(line), "!")
 	sel, d, glyphs, _, err := ParseCase(line)
 	if err != nil {
 		return "", "", "", err
@@ -146,6 +208,19 @@ func RunCase(line string) (impl string, fail string, sig string, err error) {
 	return res.obs, fail, sig, nil
 }
 
+// The run keeps at most 200 oracle failures: at most 24 per signature are
+// reported, so that one class of failures (the open finding, say) cannot
+// crowd out another.
+var failCount = map[string]int{}
+
+func report(run *vlib.Run, idx int, cl, fail, sig string) {
+	failCount[sig]++
+	run.Extra["oracle_failures_by_signature"] = failCount // all of them, reported or not
+	if failCount[sig] <= 24 {
+		run.Fail(idx, cl, fail, sig)
+	}
+}
+
 func one(run *vlib.Run, sel string, d *Desc, glyphs []int, orc []int, labels ...string) {
 	cl := CaseLine(sel, d, glyphs, orc)
 	res, err := runImpl(sel, d, glyphs)
@@ -157,7 +232,7 @@ func one(run *vlib.Run, sel string, d *Desc, glyphs []int, orc []int, labels ...
 	labels = append(labels, more...)
 	idx := run.Add(cl, res.obs, nt, labels...)
 	if fail, sig := oracle(sel, d, glyphs, &res); fail != "" {
-		run.Fail(idx, cl, fail, sig)
+		report(run, idx, cl, fail, sig)
 	}
 }
 
@@ -177,6 +252,6 @@ func oneOracleOnly(run *vlib.Run, sel string, d *Desc, glyphs []int, labels ...s
 	}
 	idx := run.Add(cl, obs, nt, labels...)
 	if fail, sig := oracle(sel, d, glyphs, &res); fail != "" {
-		run.Fail(idx, cl, fail, sig)
+		report(run, idx, cl, fail, sig)
 	}
 }
